@@ -305,6 +305,44 @@ def run_recorded(ctx):
                      "_wrap": wa, "_zip": False, "_why": "%s=%s over %s=%s, key fits the %s one" % (layers[hi], wa, layers[lo], wb, fits)}
                 a["_expect_ok" if fits == "hi" else "_must_fail"] = True
                 ops.append(("jwe.enc", a))
+    # parameters of the key-management algorithm follow the same precedence: PBES2 iteration count and ECDH-ES
+    # agreement data given with conflicting values in two headers — the value in force is the more trusted one,
+    # for wrapping exactly as for unwrapping
+    for w in E.PBES2:
+        for hi, lo in ((0, 1), (0, 2), (1, 2)):
+            for vhi, vlo in ((1000, 2000), (2048, 1000)):
+                jwe, rcp = {"protected": {"enc": "A128GCM", "alg": w}}, {}
+                for layer, v in ((layers[hi], vhi), (layers[lo], vlo)):
+                    if layer == "protected":
+                        jwe["protected"]["p2c"] = v
+                    elif layer == "unprotected":
+                        jwe["unprotected"] = {"p2c": v}
+                    else:
+                        rcp = {"header": {"p2c": v}}
+                ops.append(("jwe.enc", {"jwe": jwe, "rcp": rcp, "jwk": "correct horse", "pt": pts[4].hex(), "rand": rng.randbytes(200).hex(), "_wrap": w,
+                                        "_zip": False, "_expect_ok": True, "_why": "p2c %s=%d over %s=%d" % (layers[hi], vhi, layers[lo], vlo)}))
+        for place in layers:       # a single p2c, in each header
+            jwe, rcp = {"protected": {"enc": "A128GCM", "alg": w}}, {}
+            if place == "protected":
+                jwe["protected"]["p2c"] = 1500
+            elif place == "unprotected":
+                jwe["unprotected"] = {"p2c": 1500}
+            else:
+                rcp = {"header": {"p2c": 1500}}
+            ops.append(("jwe.enc", {"jwe": jwe, "rcp": rcp, "jwk": pool["oct-24"], "pt": pts[4].hex(), "rand": rng.randbytes(200).hex(), "_wrap": w,
+                                    "_zip": False, "_expect_ok": True, "_why": "p2c only in the %s header" % place}))
+    for w in ("ECDH-ES", "ECDH-ES+A192KW"):
+        for hi, lo in ((0, 1), (0, 2), (1, 2)):
+            jwe, rcp = {"protected": {"enc": "A128GCM", "alg": w}}, {}
+            for layer, v in ((layers[hi], "QWxpY2U"), (layers[lo], "TWFsbG9yeQ")):
+                if layer == "protected":
+                    jwe["protected"]["apu"] = v
+                elif layer == "unprotected":
+                    jwe["unprotected"] = {"apu": v}
+                else:
+                    rcp = {"header": {"apu": v}}
+            ops.append(("jwe.enc", {"jwe": jwe, "rcp": rcp, "jwk": pool["EC-P384"], "pt": pts[4].hex(), "rand": rng.randbytes(200).hex(), "_wrap": "ECDH-ES",
+                                    "_zip": False, "_expect_ok": True, "_why": "apu %s over %s" % (layers[hi], layers[lo])}))
     # the key's alg contradicts the header's
     for (wa, la), (wb, lb) in itertools.permutations(kws[:3], 2):
         ops.append(("jwe.enc", {"jwe": {"protected": {"enc": "A128GCM", "alg": wa}}, "jwk": octk(la, alg=wb), "pt": pts[1].hex(),
